@@ -103,6 +103,18 @@ pub fn mal_class(k: usize) -> usize {
 
 pub fn run(args: &[String]) {
   install_hook();
+  if args.first().map(|s| s.as_str()) == Some("replay") {
+    // one configuration (JSON) on stdin
+    let mut text = String::new();
+    use std::io::Read;
+    let _ = std::io::stdin().read_to_string(&mut text);
+    emit(json!({"kind": "units", "u": units_json()}));
+    match serde_json::from_str::<Value>(&text) {
+      Ok(j) => emit(observe_config(0, 999, vec!["replay".into()], j, true)),
+      Err(e) => emit(json!({"kind": "error", "msg": e.to_string()})),
+    }
+    return;
+  }
   let seed = arg_u64(args, 0, 1);
   let n = arg_u64(args, 1, 100) as usize;
   let ncalls = arg_u64(args, 2, 10) as usize;
